@@ -1,7 +1,8 @@
 /-
 C15 — every RPC is completed exactly once: by its own response or by a timeout.
 Property theorems only.  The model (Model/C15.lean) is a labelled transition system written from
-qnet/rpc.go: one action per mutex-protected method (call, Dispatch, the reaper's sweep, ReapTimeout),
+qnet/rpc.go: one action per critical section (call, Dispatch, the reaper's sweep, the `strip` of ReapTimeout),
+one action per completion of the ReapTimeout loop (outside the mutex — anything can happen between two of them),
 plus the queue consumer and the wake-up of a blocking caller; `Reach P s` = reachable by SOME action
 sequence, so the theorems hold for every interleaving, every response order (duplicates, unknown and
 zero sequence numbers included), sweeps at any instants, and every counter position (`setCounter`).
@@ -13,7 +14,8 @@ import Fatchoy.Lemmas.C15
 namespace Fatchoy.C15
 
 /-- the regenerated facts: TTL and codes positive, Errno reads the body (D9 repaired), the sequence search
-skips outstanding numbers (D15 repaired), the counter is 16 bits wide -/
+skips outstanding numbers (D15 repaired), the counter is 16 bits wide, stripExpired hands out a batch that
+shares no storage with the live expired list -/
 theorem C15_valid : Valid params := by decide
 
 /-- the sequence numbers of the outstanding calls are pairwise different and never 0 — in every reachable state -/
@@ -52,25 +54,29 @@ theorem C15_seq_fresh (P : Params) (hv : Valid P) {s s' : St} (mode : Mode) (dl 
     right
     exact ⟨nextSeq_none_all_used _ _ hsq, rfl, rfl, rfl, rfl⟩
 
-/-- exactly once: every call ever made (ids 0 … nextId−1) is, at any time, in exactly one of four places —
-outstanding, expired and waiting for the reap, completed, refused — and in that place exactly once.  Hence no
-call is ever completed twice, and a call has its completion exactly when it has left the tables -/
+/-- exactly once: every call ever made (ids 0 … nextId−1) is, at any time — also between two completions of a
+ReapTimeout that is under way, whatever was interleaved — in exactly one of five places: outstanding, expired
+and waiting for a reap, in the batch of a ReapTimeout under way, completed, refused; and in that place exactly
+once.  Hence no call is ever completed twice, none is ever dropped, and a call has its completion exactly when it
+has left the tables -/
 theorem C15_once (P : Params) (hv : Valid P) {s : St} (hr : Reach P s) (i : Nat) :
-    ((pids s.pending).count i + (eids s.expired).count i + (cids s.completions).count i + s.refused.count i =
-      if i < s.nextId then 1 else 0) ∧
+    ((pids s.pending).count i + (eids s.expired).count i + (bids s.batches).count i + (cids s.completions).count i +
+      s.refused.count i = if i < s.nextId then 1 else 0) ∧
     (cids s.completions).count i ≤ 1 ∧
     ((cids s.completions).count i = 1 ↔
-      (i < s.nextId ∧ i ∉ pids s.pending ∧ i ∉ eids s.expired ∧ i ∉ s.refused)) := by
+      (i < s.nextId ∧ i ∉ pids s.pending ∧ i ∉ eids s.expired ∧ i ∉ bids s.batches ∧ i ∉ s.refused)) := by
   have h := (reach_inv P hv hr).ids i
   refine ⟨h, by split at h <;> omega, ?_⟩
   constructor
   · intro h1
     split at h
     · rename_i hlt
-      exact ⟨hlt, List.count_eq_zero.mp (by omega), List.count_eq_zero.mp (by omega), List.count_eq_zero.mp (by omega)⟩
+      exact ⟨hlt, List.count_eq_zero.mp (by omega), List.count_eq_zero.mp (by omega), List.count_eq_zero.mp (by omega),
+        List.count_eq_zero.mp (by omega)⟩
     · omega
-  · intro ⟨hlt, h1, h2, h3⟩
-    rw [if_pos hlt, List.count_eq_zero.mpr h1, List.count_eq_zero.mpr h2, List.count_eq_zero.mpr h3] at h
+  · intro ⟨hlt, h1, h2, h3, h4⟩
+    rw [if_pos hlt, List.count_eq_zero.mpr h1, List.count_eq_zero.mpr h2, List.count_eq_zero.mpr h3,
+      List.count_eq_zero.mpr h4] at h
     omega
 
 /-- a response completes exactly the outstanding call that holds its sequence number — there is exactly one
@@ -89,7 +95,7 @@ theorem C15_match (P : Params) (hv : Valid P) {s s' : St} (hr : Reach P s) (seq 
   · rename_i e he
     injection hs with hs; subst hs
     obtain ⟨hmem, hkey⟩ := find_mem he
-    obtain ⟨f1, f2, f3, f4, f5, f6, f7, f8, f9, f10⟩ :=
+    obtain ⟨f1, f2, f3, f4, _, f5, f6, f7, f8, f9, f10⟩ :=
       run_frame P { s with pending := s.pending.filter (fun e => e.1 != seq) } e.2 p
     left
     have hme : (seq, e.2) ∈ s.pending := by rw [← hkey]; exact hmem
@@ -103,26 +109,31 @@ theorem C15_match (P : Params) (hv : Valid P) {s s' : St} (hr : Reach P s) (seq 
     injection hs with hs; subst hs
     exact Or.inr ⟨find_none he, rfl⟩
 
-/-- timeouts: a sweep moves exactly the overdue calls (now > deadline) from the table to the expired list and
-leaves the others where they are, completing nothing; the next reap completes every expired call with the
-request-timeout packet, in that order, once, and empties the list; and a response that arrives for a swept call
-is unmatched (its number is no longer in the table) -/
+/-- timeouts.  (1) A sweep moves exactly the overdue calls (now > deadline) from the table to the expired list,
+leaves the others and every batch under way where they are, and completes nothing; a response that arrives for a
+swept call is unmatched.  (2) `strip` hands the whole expired list to the ReapTimeout as its batch and leaves an
+empty list.  (3) A completion step completes exactly one call of its batch, with the request-timeout packet, and
+takes it out of the batch — nothing else moves -/
 theorem C15_timeout (P : Params) (hv : Valid P) {s : St} (hr : Reach P s) :
     (∀ now s', step P s (.sweep now) = some s' →
-      s'.completions = s.completions ∧
+      s'.completions = s.completions ∧ s'.batches = s.batches ∧
       ∀ e ∈ s.pending,
         (now > e.2.dl → e.2 ∈ s'.expired ∧ e.1 ∉ keys s'.pending ∧
           ∀ p, step P s' (.dispatch e.1 p) = some { s' with unmatched := s'.unmatched + 1 }) ∧
         (¬ now > e.2.dl → e ∈ s'.pending ∧ e.2 ∉ (s.pending.filter (fun x => now > x.2.dl)).map (·.2))) ∧
-    (∀ s', step P s .reap = some s' →
-      s'.expired = [] ∧ s'.pending = s.pending ∧
-      s'.completions = s.completions ++ s.expired.map (fun c => (c, timeoutPkt P))) := by
+    (∀ s', step P s .strip = some s' →
+      s'.expired = [] ∧ s'.batches = s.batches ++ [s.expired] ∧ s'.pending = s.pending ∧
+      s'.completions = s.completions) ∧
+    (∀ b k s', step P s (.complete b k) = some s' →
+      ∃ l c, s.batches[b]? = some l ∧ l[k]? = some c ∧
+        s'.completions = s.completions ++ [(c, timeoutPkt P)] ∧ s'.batches = s.batches.set b (l.eraseIdx k) ∧
+        s'.pending = s.pending ∧ s'.expired = s.expired) := by
   have h := reach_inv P hv hr
   constructor
   · intro now s' hs
     simp only [step] at hs
     injection hs with hs; subst hs
-    refine ⟨rfl, ?_⟩
+    refine ⟨rfl, rfl, ?_⟩
     intro e he
     constructor
     · intro hov
@@ -173,14 +184,111 @@ theorem C15_timeout (P : Params) (hv : Valid P) {s : St} (hr : Reach P s) :
       rcases hc1 with hc1 | hc1
       · split at hid <;> omega
       · rw [hc1] at hx2; simp [hnov] at hx2
+  constructor
   · intro s' hs
     simp only [step] at hs
     injection hs with hs; subst hs
-    have hpre : ∀ i, (eids s.expired).count i + (cids s.completions).count i ≤ 1 := by
-      intro i; have := h.ids i; split at this <;> omega
-    obtain ⟨_, r2, _, _, r5, r6, _⟩ :=
-      reap_fold P s.expired { s with expired := [] } ⟨h.R.callbacks, h.R.blockCount, h.R.blockMem⟩ hpre
-    exact ⟨r6, r5, r2⟩
+    exact ⟨rfl, rfl, rfl, rfl⟩
+  · intro b k s' hs
+    simp only [step] at hs
+    split at hs
+    case h_2 => cases hs
+    rename_i l hb
+    split at hs
+    case h_2 => cases hs
+    rename_i c hk
+    injection hs with hs; subst hs
+    obtain ⟨_, _, f3, f4, fb, _, _, _, _, _, f10⟩ :=
+      run_frame P { s with batches := s.batches.set b (l.eraseIdx k) } c (timeoutPkt P)
+    exact ⟨l, c, hb, hk, f10, fb, f3, f4⟩
+
+/-- whatever is interleaved: the batch of a ReapTimeout under way is changed by nothing but that ReapTimeout's
+own completion steps — not by sweeps, calls, responses, wake-ups, nor by the strips and completions of other
+ReapTimeouts; and a swept call stays in the expired list until a strip takes it -/
+theorem C15_batch_stable (P : Params) {s s' : St} (a : Act) (hs : step P s a = some s') :
+    (∀ b l, s.batches[b]? = some l → (∀ k, a ≠ .complete b k) → s'.batches[b]? = some l) ∧
+    (a ≠ .strip → ∀ c ∈ s.expired, c ∈ s'.expired) := by
+  cases a with
+  | call mode dl =>
+    simp only [step] at hs
+    repeat' split at hs
+    all_goals first | (injection hs with hs; subst hs; exact ⟨fun _ _ hb _ => hb, fun _ _ hc => hc⟩) | cases hs
+  | pop =>
+    simp only [step] at hs
+    split at hs
+    · injection hs with hs; subst hs; exact ⟨fun _ _ hb _ => hb, fun _ _ hc => hc⟩
+    · cases hs
+  | dispatch seq p =>
+    simp only [step] at hs
+    split at hs
+    · rename_i e _
+      injection hs with hs; subst hs
+      obtain ⟨_, _, _, f4, fb, _⟩ := run_frame P { s with pending := s.pending.filter (fun e => e.1 != seq) } e.2 p
+      exact ⟨fun _ _ hb _ => by rw [fb]; exact hb, fun _ _ hc => by rw [f4]; exact hc⟩
+    · injection hs with hs; subst hs; exact ⟨fun _ _ hb _ => hb, fun _ _ hc => hc⟩
+  | sweep now =>
+    simp only [step] at hs
+    injection hs with hs; subst hs
+    exact ⟨fun _ _ hb _ => hb, fun _ _ hc => List.mem_append_left _ hc⟩
+  | strip =>
+    simp only [step] at hs
+    injection hs with hs; subst hs
+    refine ⟨fun b l hb _ => ?_, fun h => absurd rfl h⟩
+    show (s.batches ++ [s.expired])[b]? = some l
+    rw [List.getElem?_append_left]
+    · exact hb
+    · rcases Nat.lt_or_ge b s.batches.length with h' | h'
+      · exact h'
+      · rw [List.getElem?_eq_none h'] at hb; cases hb
+  | complete b' k' =>
+    simp only [step] at hs
+    split at hs
+    case h_2 => cases hs
+    rename_i l' hb'
+    split at hs
+    case h_2 => cases hs
+    rename_i c _
+    injection hs with hs; subst hs
+    obtain ⟨_, _, _, f4, fb, _⟩ := run_frame P { s with batches := s.batches.set b' (l'.eraseIdx k') } c (timeoutPkt P)
+    refine ⟨fun b l hb hne => ?_, fun _ _ hc => by rw [f4]; exact hc⟩
+    rw [fb]
+    show (s.batches.set b' (l'.eraseIdx k'))[b]? = some l
+    have hbb : b' ≠ b := fun h' => hne k' (by rw [h'])
+    rw [List.getElem?_set_ne hbb]; exact hb
+  | wake id =>
+    simp only [step] at hs
+    split at hs
+    · injection hs with hs; subst hs; exact ⟨fun _ _ hb _ => hb, fun _ _ hc => hc⟩
+    · cases hs
+  | setCounter v =>
+    simp only [step] at hs
+    injection hs with hs; subst hs; exact ⟨fun _ _ hb _ => hb, fun _ _ hc => hc⟩
+
+/-- the loop of ReapTimeout: from any state, the owner of batch `b` can complete its remaining calls front to
+back by its own steps alone (no step of it waits for anything), each with the request-timeout packet, leaving
+the batch empty — so, with `C15_batch_stable` and `C15_once`, every call that was swept is completed by the
+ReapTimeout that stripped it, exactly once, whatever else runs in between -/
+theorem C15_reap_completes (P : Params) : ∀ (l : List Ctx) (s : St) (b : Nat), s.batches[b]? = some l →
+    ∃ s', runActs P s (List.replicate l.length (.complete b 0)) = some s' ∧
+      s'.completions = s.completions ++ l.map (fun c => (c, timeoutPkt P)) ∧ s'.batches[b]? = some [] ∧
+      s'.pending = s.pending ∧ s'.expired = s.expired
+  | [], s, b, hb => ⟨s, rfl, by simp, hb, rfl, rfl⟩
+  | c :: l, s, b, hb => by
+    have hlen : b < s.batches.length := by
+      rcases Nat.lt_or_ge b s.batches.length with h' | h'
+      · exact h'
+      · rw [List.getElem?_eq_none h'] at hb; cases hb
+    have hstep : step P s (.complete b 0) =
+        some (run P { s with batches := s.batches.set b l } c (timeoutPkt P)) := by
+      simp only [step, hb]; rfl
+    obtain ⟨_, _, f3, f4, fb, _, _, _, _, _, f10⟩ := run_frame P { s with batches := s.batches.set b l } c (timeoutPkt P)
+    have hb' : (run P { s with batches := s.batches.set b l } c (timeoutPkt P)).batches[b]? = some l := by
+      rw [fb]; show (s.batches.set b l)[b]? = some l
+      simp [hlen]
+    obtain ⟨s', r1, r2, r3, r4, r5⟩ := C15_reap_completes P l _ b hb'
+    refine ⟨s', ?_, ?_, r3, r4.trans f3, r5.trans f4⟩
+    · simp only [List.length_cons, List.replicate_succ, runActs, hstep]; exact r1
+    · rw [r2, f10]; simp
 
 /-- what the completion hands over.  Asynchronous: the callback has run exactly once per completion of an
 asynchronous call, in completion order, with `cbArgs` of the completing packet — (decoded reply, 0), or
@@ -216,11 +324,18 @@ theorem C15_callback_args (P : Params) (hv : Valid P) {s : St} (hr : Reach P s) 
 /-- the counter wraps past 0 with a call outstanding; an error reply, a duplicate, a stray response with
 number 0, a sweep that finds nothing overdue and one that does, the reap, the wake-up, a late response -/
 example : ∃ s, Reach params s ∧ s.nextId = 2 ∧ s.callbacks = [(0, none, 5)] ∧ s.unmatched = 3 ∧
-    s.returned = [(1, timeoutPkt params)] ∧ s.pending = [] ∧ s.counter = 1#16 :=
+    s.returned = [(1, timeoutPkt params)] ∧ s.pending = [] ∧ s.counter = 1#16 ∧ s.batches = [[]] :=
   ⟨_, reach_runActs params demoActs (Reach.init 4) (by rfl), by decide⟩
 
 /-- a state with two outstanding calls on both sides of the wrap (hypotheses of C15_match / C15_timeout) -/
 example : ∃ s, Reach params s ∧ keys s.pending = [1#16, 65535#16] :=
   ⟨_, reach_runActs params (demoActs.take 4) (Reach.init 4) (by rfl), by decide⟩
+
+/-- a ReapTimeout under way with a sweep in the middle of its loop: batch [call 1, call 0] stripped, call 1
+completed first (pending is newest-first), then calls 2 and 3 expire (they go to the live list, not into the batch), then call 0 -/
+example : ∃ s, Reach params s ∧ s.batches = [[]] ∧ eids s.expired = [3, 2] ∧ cids s.completions = [1, 0] :=
+  ⟨_, reach_runActs params
+    [.call .async 10, .call .async 20, .call .async 30, .call .block 40, .sweep 25, .strip, .complete 0 0,
+     .sweep 50, .complete 0 0] (Reach.init 8) (by rfl), by decide⟩
 
 end Fatchoy.C15
